@@ -84,6 +84,7 @@ def c01(tier, seed):
             r = g.step_mutator('c0')
             if r is not None:
                 g.do('obs c0'); g.lines.append('!inv c0'); g.out.append('ok')
+        g.lines.append('!api c0'); g.out.append('ok')
         yield dict(lines=g.lines, pool=pool, tag='C01 history seed=%d' % (seed * 100003 + j), judge=True)
 
 
@@ -204,6 +205,7 @@ def c03(tier, seed):
                 g.lines.append('!chain c0 ' + Lst(ch)); g.out.append('ok')
         g.do('obs c0')
         g.lines.append('!noalias c0'); g.out.append('ok')
+        g.lines.append('!api c0'); g.out.append('ok')
         g.lines.append('!views c0'); g.out.append('ok')
         g.do('obs c0')
         yield dict(lines=g.lines, pool=pool, tag='C03 history seed=%d' % (seed * 7919 + j))
@@ -1052,6 +1054,7 @@ def c13(tier, seed, pid='C13'):
                 if pid == 'C14':
                     g.do('!filtq f'); g.do('!nav f')
         filt_queries(g)
+        g.do('!fapi f')
         g.do('iter f'); g.do('obs f')
         for i in IDX:
             if rng.random() < 0.5:
